@@ -427,6 +427,34 @@ def evaluate(ctx, case):
                 if [a[2] for a in flat] != [nm for _, ns in species[k]["residues"] for nm in ns]:
                     ctx.oracle_fail("System.__iter__:names-differ-from-topology", case, {"at_atoms": [a0, a1]})
                     break
+        # -- an iteration IN PROGRESS is not disturbed by other reads of the same System between two of its yields
+        #    (`system[0]`, `system[-1]`, a slice, a second iterator): every instance is still the file's run (seed
+        #    C11-15: one seek per block of instances, then sequential reads from the cursor the other reads share)
+        if listed and len(listed) == nmol and nmol <= 40 and int(case.get('coordseed', 0)) % 2 == 0:
+            import random as _random
+            r_il = _random.Random(f"interleave-{case.get('coordseed', 0)}")
+            ctx.oracle_ok(1)
+            ctx.count("iteration-interleaved-with-other-reads")
+            try:
+                got = []
+                other = iter(sysm)
+                for m in sysm:
+                    got.append(_mol_view(sysm, m, None))
+                    w = r_il.randrange(5)
+                    if w == 0:
+                        sysm[0]
+                    elif w == 1:
+                        sysm[-1]
+                    elif w == 2:
+                        sysm[r_il.randrange(nmol):][:2]
+                    elif w == 3:
+                        next(other, None)
+                if got != listed:
+                    bad = next((i for i, (a, b) in enumerate(zip(got, listed)) if a != b), min(len(got), len(listed)))
+                    ctx.oracle_fail("System.__iter__:disturbed-by-interleaved-reads", case,
+                                    {"first_wrong_instance": bad, "found": len(got), "present": nmol})
+            except Exception as e:   # noqa: BLE001
+                ctx.oracle_fail("System.__iter__:interleaved-reads-raise-" + G.err_name(e), case, {})
         # -- len / composition / indexing / slicing agree with the list
         ctx.oracle_ok(2)
         st = _state(sysm)
